@@ -117,6 +117,7 @@ func cmdVerify(args []string) {
 	verbose := fs.Bool("v", false, "print every obligation")
 	secs := fs.Int("secs", 10, "solver timeout per obligation")
 	keep := fs.Bool("keep", false, "keep query files")
+	dump := fs.String("dump", "", "print the query text of obligations whose name contains this")
 	fs.Parse(args)
 	P, err := loadProgram(repoDir(), strings.Split(*pkg, ","))
 	if err != nil {
@@ -151,6 +152,16 @@ func cmdVerify(args []string) {
 		if err := c.verify(); err != nil {
 			fmt.Println("ERROR", err)
 			bad++
+			continue
+		}
+		if *dump != "" {
+			for _, o := range c.Obls {
+				if strings.Contains(o.Name, *dump) {
+					fmt.Println(";;;;", o.Name, o.Pos)
+					fmt.Println(c.queryText(o, false))
+					break
+				}
+			}
 			continue
 		}
 		c.discharge(solveOpts{secs: *secs, workDir: work, workers: 16})
